@@ -302,6 +302,20 @@ func errorPropagated(call ssa.Value, fail failPred) bool {
 			if _, ok := r.(*ssa.Return); ok {
 				return true
 			}
+			// … through the result cell of a function with deferred calls (return value spilled to a local)
+			if st, ok := r.(*ssa.Store); ok && st.Val == ev {
+				if al, isAl := st.Addr.(*ssa.Alloc); isAl {
+					for _, r2 := range *al.Referrers() {
+						if ld, isLd := r2.(*ssa.UnOp); isLd && ld.Op == token.MUL {
+							for _, r3 := range *ld.Referrers() {
+								if _, isRet := r3.(*ssa.Return); isRet {
+									return true
+								}
+							}
+						}
+					}
+				}
+			}
 		}
 	}
 	return false
@@ -326,14 +340,17 @@ func guardsDeep(fn *ssa.Function, fail failPred, depth int) []CmpGuard {
 	seen := map[*ssa.Function]bool{}
 	for _, cl := range Calls(fn) {
 		h := cl.Fn
-		if h == nil || h == fn || seen[h] || len(h.Blocks) == 0 || h.Pkg == nil {
+		if h != nil {
+			h = bodyOf(h)
+		}
+		if h == nil || h == fn || seen[h] || len(h.Blocks) == 0 {
 			continue
 		}
 		pf := fn
 		for pf.Parent() != nil {
 			pf = pf.Parent()
 		}
-		if h.Pkg != pf.Pkg {
+		if fnPkgPath(h) == "" || fnPkgPath(h) != fnPkgPath(pf) {
 			continue
 		}
 		if cl.Value() == nil || len(errValues(cl.Value())) == 0 || !errorPropagated(cl.Value(), fail) {
